@@ -2,10 +2,10 @@
 # Evaluates seeded changes against the CURRENT checks (quick tier) in isolated scratch copies (tools/trymutant2.sh):
 # writes seeded/<id>/result.txt.  usage: tools/eval_all_seeded.sh [id ...]   (default: all)   PAR=<n> parallel runs (default 3)
 cd /verif
-ids=("$@"); [ ${#ids[@]} -eq 0 ] && ids=($(ls seeded))
+ids=("$@"); [ ${#ids[@]} -eq 0 ] && ids=($(ls -d seeded/*/ | xargs -n1 basename))
 one() {
   id=$1; prop=${id%%-*}; d=/verif/seeded/$id
-  patch=$d/patch.diff; [ -f $d/patch.rebased.diff ] && patch=$d/patch.rebased.diff
+  patch=$d/patch.diff; [ -d $d ] || exit 0; [ -f $d/patch.rebased.diff ] && patch=$d/patch.rebased.diff
   /verif/tools/trymutant2.sh $patch $prop > $d/result.txt 2>&1
   echo "== $id $(grep -E '^rc=|PATCH' $d/result.txt | head -1) $(grep -m1 -E '^VIOLATION' $d/result.txt | sed 's/.*replays.//' | cut -c1-80)"
 }
